@@ -179,7 +179,7 @@ impl World for C41 {
     }
     fn budget(&self, tier: Tier) -> (u64, u64) {
         match tier {
-            Tier::Quick => (600, 45),
+            Tier::Quick => (1500, 45),
             Tier::Thorough => (30_000, 900),
         }
     }
